@@ -24,6 +24,7 @@ type control struct {
 
 var controls = []control{
 	{"input write", []string{"C17"}, func(c *flow.Ctx, p *load.Prog) { c.RuleInputReadOnly(p.Func("ctl", "InputWrite")) }, "C17.ro", []string{"violated"}},
+	{"input retained in a global", []string{"C17"}, func(c *flow.Ctx, p *load.Prog) { c.RuleInputReadOnly(p.Func("ctl", "InputRetain")) }, "C17.ro", []string{"violated"}},
 	{"store before error", []string{"C17"}, func(c *flow.Ctx, p *load.Prog) {
 		c.RuleStoreThenError([]*ssa.Function{p.Method("ctl", "Value", "UnmarshalText")})
 	}, "C17.store", []string{"violated"}},
